@@ -99,6 +99,7 @@ func checkC20(c *Ctx) {
 	}
 	checkSQLRules(c, l, "SQL-schema", "SQL-arity", "SQL-roles")
 	checkV2CheckpointRules(c, l)
+	checkReplayVersion(c, l)
 	c.rule("SIB-memoize", "FindMemoized agrees with Find", 2)
 	checkV2Memoize(c, l, "SIB-memoize")
 	ea := newErrAnalysisWith(c, l, sqliteOps())
@@ -354,4 +355,78 @@ func checkV2Memoize(c *Ctx, l *Loaded, rule string) {
 		}
 	})
 	c.decide(rule, "FindMemoized caches Find(version) under version", l.pos(fm.Pos()), okS, "cache[version] = Find(version)", "the memo table is filled with something other than Find(version) under the key version")
+}
+
+// checkReplayVersion: while the change log is replayed, the tree's version is
+// taken from the row being applied (row version - 1, so that the nodes created
+// for it get exactly the row's version) and finally set to the requested
+// version; it is never advanced by counting — a version saved with an empty
+// change set leaves a gap in the log, and counting across the gap gives the
+// replayed nodes a version that is too small (root hash mismatch on reload).
+func checkReplayVersion(c *Ctx, l *Loaded) {
+	const R = "FLOW-replay-version"
+	c.rule(R, "during replay the tree version follows the version of the replayed row", 2)
+	replay := l.Func("", "*SqliteDb.replayChangelog")
+	fVer := l.Field("", "Tree", "version")
+	if replay == nil || fVer == nil {
+		c.anchorMissing(R, "replayChangelog / Tree.version")
+		return
+	}
+	// the variable the row's version is scanned into: first destination of Stmt.Scan
+	var rowVer ssa.Value
+	allInstrs(replay, func(in ssa.Instruction) {
+		cc := callCommon(in)
+		if cc == nil || !sqlMethod(cc, "Stmt", "Scan") {
+			return
+		}
+		if vals, ok := variadicValues(cc.Args[1]); ok && len(vals) > 0 {
+			v := vals[0]
+			if mi, isMI := v.(*ssa.MakeInterface); isMI {
+				v = mi.X
+			}
+			rowVer = v
+		}
+	})
+	if rowVer == nil {
+		c.anchorMissing(R, "Scan destination of the row version")
+		return
+	}
+	fromRow := func(v ssa.Value) bool {
+		// Convert?( load(rowVer) - 1 ) or Convert(load(rowVer)) - 1
+		var walk func(v ssa.Value, d int) (usesRow bool, minusOne bool)
+		walk = func(v ssa.Value, d int) (bool, bool) {
+			if d > 6 {
+				return false, false
+			}
+			switch x := stripTrivial(v).(type) {
+			case *ssa.Convert:
+				return walk(x.X, d+1)
+			case *ssa.UnOp:
+				if x.Op == token.MUL && x.X == rowVer {
+					return true, false
+				}
+			case *ssa.BinOp:
+				if x.Op == token.SUB {
+					if k, ok := constInt(x.Y); ok && k == 1 {
+						u, _ := walk(x.X, d+1)
+						return u, u
+					}
+				}
+			}
+			return false, false
+		}
+		u, m := walk(v, 0)
+		return u && m
+	}
+	n := 0
+	for _, st := range storesToField(replay, fVer) {
+		n++
+		r := roleOf(l, st.Val, "", 0)
+		ok := fromRow(st.Val) || r == "arg1"
+		c.decide(R, "replayChangelog sets tree.version", l.ipos(st), ok, "row version - 1 (inside the loop) or the requested version (at the end)",
+			"tree.version is set to `"+r+"` during replay: it does not follow the version of the row being applied, so a gap in the log (a version without changes) shifts every later replayed node to the wrong version")
+	}
+	if n < 2 {
+		c.anchorMissing(R, "fewer than 2 assignments of tree.version in replayChangelog")
+	}
 }
